@@ -191,8 +191,12 @@ func (lm *levelManager) flush(immutable *memTable) (err error) {
 
 	iter.Rewind()
 	if !iter.Valid() {
-		if err := lm.lsm.wal.RemoveSegment(uint32(fid)); err != nil && !errors.Is(err, os.ErrNotExist) {
-			return err
+		// Nothing to flush, but the segment is shared with raft groups: it may still hold
+		// log entries one of them has not truncated.
+		if lm.canRemoveWalSegment(uint32(fid)) {
+			if err := lm.lsm.wal.RemoveSegment(uint32(fid)); err != nil && !errors.Is(err, os.ErrNotExist) {
+				return err
+			}
 		}
 		return nil
 	}
